@@ -137,3 +137,11 @@ META["C10"] = dict(
     note="Trusts the graphsync double's call stamps and the recording network/validator/datastore doubles.",
     technique="runtime monitoring: relational before/after oracle + ordering oracle over the recorded graphsync/network call log of the real transport",
 )
+
+META["C17"] = dict(
+    text=("Held on K generated manager histories: subscriber call logs are compared with the datastore write log (independent observation of what was applied), across several "
+          "subscribers, with subscription changes from other goroutines and per-transfer subscribers."),
+    design_ref="DESIGN.md §2 C17",
+    note="Trusts the recording datastore (write log), the independent record decoder (internal/cborx + recordToView) and the subscriber recorder.",
+    technique="runtime monitoring: offline comparison of recorded subscriber call logs against the datastore write log (exactly-once, order, state agreement)",
+)
